@@ -112,17 +112,37 @@ func describeParts(parts []simPart) []string {
 	return out
 }
 
-type memReader struct{ *bytes.Reader }
+// memReader is a part file. With shortCuts set (fault "short reads") a Read returns fewer bytes than asked for at
+// the pre-drawn sizes, with a nil error, in the middle of the file: what io.Reader allows and what a buffered
+// file reader does when its read-ahead buffer runs dry.
+type memReader struct {
+	*bytes.Reader
+	cuts []int
+	n    *int
+}
 
 func (memReader) Path() string { return "mem" }
 func (memReader) Close() error { return nil }
+func (m memReader) Read(p []byte) (int, error) {
+	if len(m.cuts) > 0 && len(p) > 0 {
+		c := m.cuts[*m.n%len(m.cuts)]
+		*m.n++
+		if c > 0 && c < len(p) {
+			p = p[:c]
+		}
+	}
+	return m.Reader.Read(p)
+}
+
+// shortCuts is set per run (nil = every Read fills the buffer or reaches the end of the file).
+var shortCuts []int
 
 func toStreaming(parts []simPart) []queue.StreamingPartData {
 	var out []queue.StreamingPartData
 	for _, p := range parts {
 		var fi []queue.FileInfo
 		for _, f := range p.files {
-			fi = append(fi, queue.FileInfo{Name: f.name, Reader: memReader{bytes.NewReader(f.data)}})
+			fi = append(fi, queue.FileInfo{Name: f.name, Reader: memReader{Reader: bytes.NewReader(f.data), cuts: shortCuts, n: new(int)}})
 		}
 		out = append(out, queue.StreamingPartData{
 			Group: "g1", Topic: data.TopicMeasurePartSync.String(), ShardID: 0, ID: p.id, Files: fi, PartType: p.ptype,
@@ -385,6 +405,15 @@ func runLockstep(e *simcore.Env, tp *simcore.Tape) {
 		chunkSizes := []int{1, 2, 3, 7, 16, 100, 255, 256, 1000, 4096, 1 << 20}
 		chunk := chunkSizes[tp.Choose(len(chunkSizes))]
 		parts := genParts(tp, min(chunk, 600))
+		shortCuts = nil
+		if tp.Side().Bool(1, 3) { // fault: short reads of the part files (sizes 0 = full read)
+			for i, k := 0, tp.Side().Range(1, 5); i < k; i++ {
+				shortCuts = append(shortCuts, []int{0, 1, 2, 5, 16, 100}[tp.Side().Choose(6)])
+			}
+			e.Probe("fault.short_reads_of_part_files")
+			e.Event("part files are read with short reads %v", shortCuts)
+		}
+		defer func() { shortCuts = nil }()
 		total := 0
 		for _, p := range parts {
 			for _, f := range p.files {
